@@ -271,7 +271,7 @@ def _child(case):
     cur = cube
     for its in case["chain"]:
         poke(cur, case["key"])                 # (asked about itself before it is sliced)
-        cur = cur[Q.dec_items(its)]
+        cur = cur[Q.np_ints(case["key"], Q.dec_items(its))]     # (integers as numpy integers in every fourth case)
     return cube, cur
 
 
